@@ -275,6 +275,7 @@ structure Inv11 (env : Env) (cfg : Config) (sc : UpdateScript) (bops0 : List Op)
   sync : (cw.bchk = none ∧ g.inCheck = false ∧ g.bops = cw.bq) ∨
     (∃ pc op, cw.bchk = some pc ∧ g.inCheck = true ∧ g.bops = op :: cw.bq ∧ CPcOK bops0 pc ∧ (∀ b, pc ≠ .done b))
   bq : ∀ op ∈ cw.bq, op ∈ bops0 ∧ op.episodeOk = true
+  exempt : ∀ n, n ∉ g.exempt → n ∉ episodeRolled sc bops0 ∧ (sc.resp.bind (·.patch)).map (·.number) ≠ some n
 
 theorem mem_episodeRolled_upd (sc : UpdateScript) (bops : List Op) (r : CheckResp) (n : Nat)
     (h : sc.resp = some r) (hn : n ∈ r.rolledBack.getD []) : n ∈ episodeRolled sc bops := by
@@ -290,10 +291,10 @@ theorem mem_episodeRolled_b (sc : UpdateScript) (bops : List Op) (op : Op) (r : 
 /-- What the checks need about the state after a grant. -/
 theorem checks11_ok (env : Env) (key : Option String) (sc : UpdateScript) (g : G11) (w : Who) (rets : List Ret)
     (pre : View) (d' : Disk)
-    (hban : (g.next w rets pre).armed = true → BanD d' (g.next w rets pre).failed)
-    (hgood : ∀ n b, (g.next w rets pre).good = some (n, b) → d'.art n = some (.file b))
+    (hban : (g.next env key w rets pre).armed = true → BanD d' (g.next env key w rets pre).failed)
+    (hgood : ∀ n b, (g.next env key w rets pre).good = some (n, b) → d'.art n = some (.file b))
     (hinst : ∀ o, w = .A → rets = [.upd .installed] → sc.resp.bind (·.patch) = some o →
-      (g.next w rets pre).armed = true → o.number ∉ (g.next w rets pre).failed)
+      (g.next env key w rets pre).armed = true → o.number ∉ (g.next env key w rets pre).failed)
     (hq : ∀ r n, (g.bStarts w = some .nextN ∨ g.bStarts w = some .nextP) → rets = [r] → retNumber r = some n →
       ∃ m, (loadPatchesState d').next = some m ∧ m.number = n ∧ validate env key d' m = true) :
     firstFail (checks11 env key sc g w rets pre (viewOfDisk d')) = none := by
@@ -346,7 +347,7 @@ theorem checks11_ok (env : Env) (key : Option String) (sc : UpdateScript) (g : G
                 simp only [firstFail_none_iff, List.mem_cons, List.mem_nil_iff, or_false]
                 rintro c rfl
                 simp only [Bool.or_eq_true, Bool.not_eq_true', List.contains_eq_mem, decide_eq_false_iff_not]
-                cases harm : (g.next .A [.upd .installed] pre).armed with
+                cases harm : (g.next env key .A [.upd .installed] pre).armed with
                 | false => right; rfl
                 | true => left; exact hinst o rfl rfl hp harm
           | unit => rfl
@@ -354,7 +355,7 @@ theorem checks11_ok (env : Env) (key : Option String) (sc : UpdateScript) (g : G
           | num n => rfl
           | path p => rfl
   · -- the last good artifact
-    cases hg : (g.next w rets pre).good with
+    cases hg : (g.next env key w rets pre).good with
     | none => rfl
     | some nb =>
       obtain ⟨n, b⟩ := nb
@@ -399,12 +400,20 @@ end Updater
 
 namespace Updater
 
-theorem G11_next_A (g : G11) (rets : List Ret) (pre : View) : g.next .A rets pre = g := by
-  obtain ⟨failed, good, bops, inCheck, armed⟩ := g
+theorem G11_next_A (env : Env) (key : Option String) (g : G11) (rets : List Ret) (pre : View) :
+    g.next env key .A rets pre = g := by
+  obtain ⟨failed, good, bops, inCheck, armed, exempt⟩ := g
   simp only [G11.next, G11.bStarts]
   cases good with
   | none => rfl
   | some nb => rfl
+
+theorem G11_next_exempt (env : Env) (key : Option String) (g : G11) (w : Who) (rets : List Ret) (pre : View) :
+    (g.next env key w rets pre).exempt = g.exempt := by
+  unfold G11.next
+  cases w with
+  | A => rfl
+  | B => simp only []; split <;> (try split) <;> rfl
 
 theorem norm_id (cw : CW) (h : ∀ b, cw.bchk ≠ some (.done b)) : cw.norm = cw := by
   unfold CW.norm
@@ -423,7 +432,7 @@ def Step11Goal (env : Env) (cfg : Config) (libs : List (String × Bytes)) (chan 
     (bops0 : List Op) (g : G11) (cw : CW) (w : Who) : Prop :=
   firstFail (checks11 env cfg.key sc g w (grant env cfg libs chan sc cw w).2 (viewOfDisk cw.disk)
     (viewOfDisk (grant env cfg libs chan sc cw w).1.norm.disk)) = none ∧
-  Inv11 env cfg sc bops0 (g.next w (grant env cfg libs chan sc cw w).2 (viewOfDisk cw.disk))
+  Inv11 env cfg sc bops0 (g.next env cfg.key w (grant env cfg libs chan sc cw w).2 (viewOfDisk cw.disk))
     (grant env cfg libs chan sc cw w).1.norm
 
 /-- A grant to the update thread. -/
@@ -431,7 +440,7 @@ theorem step11_A (env : Env) (cfg : Config) (libs : List (String × Bytes)) (cha
     (bops0 : List Op) (g : G11) (cw : CW) (hinv : Inv11 env cfg sc bops0 g cw) :
     firstFail (checks11 env cfg.key sc g .A (grant env cfg libs chan sc cw .A).2 (viewOfDisk cw.disk)
       (viewOfDisk (grant env cfg libs chan sc cw .A).1.norm.disk)) = none ∧
-    Inv11 env cfg sc bops0 (g.next .A (grant env cfg libs chan sc cw .A).2 (viewOfDisk cw.disk))
+    Inv11 env cfg sc bops0 (g.next env cfg.key .A (grant env cfg libs chan sc cw .A).2 (viewOfDisk cw.disk))
       (grant env cfg libs chan sc cw .A).1.norm := by
   have hv := withChannel_version cfg chan
   have hk := withChannel_key cfg chan
@@ -446,7 +455,7 @@ theorem step11_A (env : Env) (cfg : Config) (libs : List (String × Bytes)) (cha
       (∀ o, rets = [.upd .installed] → sc.resp.bind (·.patch) = some o → g.armed = true → o.number ∉ g.failed) →
       firstFail (checks11 env cfg.key sc g .A (grant env cfg libs chan sc cw .A).2 (viewOfDisk cw.disk)
         (viewOfDisk (grant env cfg libs chan sc cw .A).1.norm.disk)) = none ∧
-      Inv11 env cfg sc bops0 (g.next .A (grant env cfg libs chan sc cw .A).2 (viewOfDisk cw.disk))
+      Inv11 env cfg sc bops0 (g.next env cfg.key .A (grant env cfg libs chan sc cw .A).2 (viewOfDisk cw.disk))
         (grant env cfg libs chan sc cw .A).1.norm := by
     intro pc' d' rets hgr hs hb hg hu hi
     rw [hgr]
@@ -460,7 +469,7 @@ theorem step11_A (env : Env) (cfg : Config) (libs : List (String × Bytes)) (cha
       · rw [G11_next_A]; intro n b h; exact (hg n b h).1
       · rw [G11_next_A]; intro o _ hr hp ha; exact hi o hr hp ha
       · intro r n hs'; simp [G11.bStarts] at hs'
-    · exact ⟨by rw [← hv]; exact hs, hb, fun n b h => ⟨hg n b h, (hinv.good n b h).2⟩, hu, hinv.sync, hinv.bq⟩
+    · exact ⟨by rw [← hv]; exact hs, hb, fun n b h => ⟨hg n b h, (hinv.good n b h).2⟩, hu, hinv.sync, hinv.bq, hinv.exempt⟩
   have hgoodk : ∀ n b, g.good = some (n, b) → GoodD env (withChannel cfg chan).key cw.disk n b := by
     intro n b h; rw [hk]; exact (hinv.good n b h).1
   have noinst : ∀ (rets : List Ret) (out : UpdateOut), out ≠ .installed → rets = [.upd out] ∨ rets = [] →
@@ -658,11 +667,13 @@ end Updater
 
 namespace Updater
 
-/-- A success report of the last good patch itself (booted again) keeps it. -/
-theorem secLaunchSuccess_good_same (env : Env) (cfg : Config) (d : Disk) (n : Nat) (b : Bytes) (hst : Settled d cfg.version)
+/-- A success report makes the patch that was booting the last good one; with its file in place and every slot
+    naming it valid, it is from then on a last good patch in the sense of `GoodD`. -/
+theorem secLaunchSuccess_good_new (env : Env) (cfg : Config) (d : Disk) (n : Nat) (b : Bytes) (hst : Settled d cfg.version)
     (bp : Meta) (hb : (loadPatchesState d).booting = some bp) (hbn : bp.number = n)
-    (h : GoodD env cfg.key d n b) : GoodD env cfg.key (secLaunchSuccess env cfg d).1 n b := by
-  obtain ⟨ha, _, hall⟩ := h
+    (ha : d.art n = some (.file b))
+    (hall : ∀ x, InSlot (loadPatchesState d) x → x.number = n → validate env cfg.key d x = true) :
+    GoodD env cfg.key (secLaunchSuccess env cfg d).1 n b := by
   have hart : (secLaunchSuccess env cfg d).1.art n = d.art n := by
     rw [← hbn]; exact secLaunchSuccess_art env cfg d hst bp hb
   obtain ⟨s, hs, hv⟩ := hst
@@ -688,6 +699,26 @@ theorem secLaunchSuccess_good_same (env : Env) (cfg : Config) (d : Disk) (n : Na
   simp only [secLaunchSuccess, loadOrNew_settled d _ s hs hv, hb']
   split <;> (try split) <;> exact key
 
+/-- A success report of the last good patch itself (booted again) keeps it. -/
+theorem secLaunchSuccess_good_same (env : Env) (cfg : Config) (d : Disk) (n : Nat) (b : Bytes) (hst : Settled d cfg.version)
+    (bp : Meta) (hb : (loadPatchesState d).booting = some bp) (hbn : bp.number = n)
+    (h : GoodD env cfg.key d n b) : GoodD env cfg.key (secLaunchSuccess env cfg d).1 n b :=
+  secLaunchSuccess_good_new env cfg d n b hst bp hb hbn h.1 h.2.2
+
+/-- What the monitor's establishment condition says about the disk. -/
+theorem slots_of_view (env key) {w : World} {v : View} (hs : ShowsDisk w v) (n : Nat) (b : Bytes)
+    (hf : v.fileOf n = some b) (hv : v.slotsValid env key n = true) :
+    w.disk.art n = some (.file b) ∧
+      ∀ x, InSlot (loadPatchesState w.disk) x → x.number = n → validate env key w.disk x = true := by
+  have hps := ps_of_shows hs
+  simp only [View.slotsValid, Bool.and_eq_true, slotOk_iff env key hs, hps] at hv
+  refine ⟨(fileOf_of_shows hs n b).1 hf, ?_⟩
+  intro x hx hxn
+  rcases hx with h | h | h
+  · exact hv.1.1 x h hxn
+  · exact hv.1.2 x h hxn
+  · exact hv.2 x h hxn
+
 theorem viewOfDisk_bootingNum (d : Disk) : (viewOfDisk d).bootingNum = (loadPatchesState d).booting.map (·.number) := rfl
 
 theorem CPcOK_afterCfg (bops0 : List Op) (op : Op) (chan : Option String) (resp : Option CheckResp)
@@ -709,10 +740,11 @@ theorem step11_B (env : Env) (cfg : Config) (libs : List (String × Bytes)) (cha
   -- what remains once the grant, the normalised state and the next ghost state are computed
   have finish : ∀ (cw' : CW) (rets : List Ret) (g' : G11),
       (grant env cfg libs chan sc cw .B).2 = rets → (grant env cfg libs chan sc cw .B).1.norm = cw' →
-      g.next .B rets (viewOfDisk cw.disk) = g' →
+      g.next env cfg.key .B rets (viewOfDisk cw.disk) = g' →
       Settled cw'.disk cfg.version →
       (g'.armed = true → BanD cw'.disk g'.failed) →
-      (∀ n b, g'.good = some (n, b) → GoodD env cfg.key cw'.disk n b ∧ g.good = some (n, b)) →
+      (∀ n b, g'.good = some (n, b) → GoodD env cfg.key cw'.disk n b ∧
+        (g.good = some (n, b) ∨ (n ∉ episodeRolled sc bops0 ∧ (sc.resp.bind (·.patch)).map (·.number) ≠ some n))) →
       cw'.upc = cw.upc →
       ((cw'.bchk = none ∧ g'.inCheck = false ∧ g'.bops = cw'.bq) ∨
         (∃ pc op, cw'.bchk = some pc ∧ g'.inCheck = true ∧ g'.bops = op :: cw'.bq ∧ CPcOK bops0 pc ∧ (∀ b, pc ≠ .done b))) →
@@ -729,14 +761,18 @@ theorem step11_B (env : Env) (cfg : Config) (libs : List (String × Bytes)) (cha
       · rw [h3]; intro n b h; exact (hg n b h).1.1
       · intro o h; cases h
       · exact hq
-    · exact ⟨hs, hb, fun n b h => ⟨(hg n b h).1, (hinv.good n b (hg n b h).2).2⟩, by rw [hu]; exact hinv.upc, hsy, hbq⟩
+    · refine ⟨hs, hb, fun n b h => ⟨(hg n b h).1, ?_⟩, by rw [hu]; exact hinv.upc, hsy, hbq, ?_⟩
+      · rcases (hg n b h).2 with h' | h'
+        · exact (hinv.good n b h').2
+        · exact h'
+      · rw [← h3, G11_next_exempt]; exact hinv.exempt
   rcases hinv.sync with ⟨hbn, hic, hbo⟩ | ⟨pc, op0, hbc, hic, hbo, hpcok, hnd⟩
   · -- at a call boundary
     cases hq : cw.bq with
     | nil =>
       have hge : g.bops = [] := by rw [hbo, hq]
       refine finish cw [] g (by simp [grant, hbn, hq]) (by simp [grant, hbn, hq]; exact norm_id _ hinv.nodone)
-        (by simp [G11.next, hge]) hst hinv.ban (fun n b h => ⟨(hinv.good n b h).1, h⟩) rfl
+        (by simp [G11.next, hge]) hst hinv.ban (fun n b h => ⟨(hinv.good n b h).1, Or.inl h⟩) rfl
         (Or.inl ⟨hbn, hic, hbo⟩) hinv.bq ?_
       intro r n hs'; simp [G11.bStarts, hic, hge] at hs'
     | cons op rest =>
@@ -750,10 +786,10 @@ theorem step11_B (env : Env) (cfg : Config) (libs : List (String × Bytes)) (cha
           (∀ c r, op ≠ .check c r) →
           (step env { disk := cw.disk, config := some cfg, libs := libs } op).1.disk = d' →
           (step env { disk := cw.disk, config := some cfg, libs := libs } op).2.1 = ret →
-          g.next .B [ret] (viewOfDisk cw.disk) = { g with failed := failed', good := good', inCheck := false, bops := rest } →
+          g.next env cfg.key .B [ret] (viewOfDisk cw.disk) = { g with failed := failed', good := good', inCheck := false, bops := rest } →
           Settled d' cfg.version →
           (g.armed = true → BanD d' failed') →
-          (∀ n b, good' = some (n, b) → GoodD env cfg.key d' n b ∧ g.good = some (n, b)) →
+          (∀ n b, good' = some (n, b) → GoodD env cfg.key d' n b ∧ (g.good = some (n, b) ∨ (n ∉ episodeRolled sc bops0 ∧ (sc.resp.bind (·.patch)).map (·.number) ≠ some n))) →
           (∀ n, (op = .nextN ∨ op = .nextP) → retNumber ret = some n →
             ∃ m, (loadPatchesState d').next = some m ∧ m.number = n ∧ validate env cfg.key d' m = true) →
           Step11Goal env cfg libs chan sc bops0 g cw .B := by
@@ -781,8 +817,8 @@ theorem step11_B (env : Env) (cfg : Config) (libs : List (String × Bytes)) (cha
             ({ cw with bq := rest, bchk := some (checkAfterCfgPc resp) }, (checkAfterCfgPc resp).rets) := by
           simp only [grant, hbn, hq]
         have hcp := CPcOK_afterCfg bops0 _ ch resp rfl hmem
-        have hgood' : ∀ (gg : G11), gg.good = g.good → ∀ n b, gg.good = some (n, b) → GoodD env cfg.key cw.disk n b ∧ g.good = some (n, b) :=
-          fun gg he n b h => ⟨(hinv.good n b (he ▸ h)).1, he ▸ h⟩
+        have hgood' : ∀ (gg : G11), gg.good = g.good → ∀ n b, gg.good = some (n, b) → GoodD env cfg.key cw.disk n b ∧ (g.good = some (n, b) ∨ (n ∉ episodeRolled sc bops0 ∧ (sc.resp.bind (·.patch)).map (·.number) ≠ some n)) :=
+          fun gg he n b h => ⟨(hinv.good n b (he ▸ h)).1, Or.inl (he ▸ h)⟩
         cases hpc' : checkAfterCfgPc resp with
         | done b =>
           refine finish { cw with bq := rest, bchk := none } [.bool b] { g with inCheck := false, bops := rest }
@@ -826,7 +862,7 @@ theorem step11_B (env : Env) (cfg : Config) (libs : List (String × Bytes)) (cha
         refine simple (secLaunchStart env cfg cw.disk) .unit g.failed g.good (by intro c r h; cases h)
           (step_disk_enter env _ .start cfg hw) rfl ?_ (secLaunchStart_settled env cfg _ hst)
           (fun ha => secLaunchStart_ban env cfg _ _ hst (hinv.ban ha))
-          (fun n b h => ⟨secLaunchStart_good env cfg _ n b hst (hinv.good n b h).1, h⟩) (by intro n h; rcases h with h | h <;> cases h)
+          (fun n b h => ⟨secLaunchStart_good env cfg _ n b hst (hinv.good n b h).1, Or.inl h⟩) (by intro n h; rcases h with h | h <;> cases h)
         simp only [G11.next, hbs, hge]
         cases g.good with
         | none => simp
@@ -835,7 +871,7 @@ theorem step11_B (env : Env) (cfg : Config) (libs : List (String × Bytes)) (cha
         have hd : (step env { disk := cw.disk, config := some cfg, libs := libs } .curN).1.disk = cw.disk := by
           rw [step_disk_enter env _ .curN cfg hw]; simp only [opDisk]; exact secCurrentBootPatch_disk cfg cw.disk hst
         refine simple cw.disk _ g.failed g.good (by intro c r h; cases h) hd rfl ?_ hst hinv.ban
-          (fun n b h => ⟨(hinv.good n b h).1, h⟩) (by intro n h; rcases h with h | h <;> cases h)
+          (fun n b h => ⟨(hinv.good n b h).1, Or.inl h⟩) (by intro n h; rcases h with h | h <;> cases h)
         simp only [G11.next, hbs, hge]
         cases g.good with
         | none => simp
@@ -846,7 +882,7 @@ theorem step11_B (env : Env) (cfg : Config) (libs : List (String × Bytes)) (cha
         refine simple (secNextBootPatch env cfg cw.disk).1 _ g.failed g.good (by intro c r h; cases h)
           (step_disk_enter env _ .nextN cfg hw) hret ?_ (secNextBootPatch_settled env cfg _ hst)
           (fun ha => (secNextBootPatch_ban env cfg _ _ hst (hinv.ban ha)).1)
-          (fun n b h => ⟨secNextBootPatch_good env cfg _ n b hst (hinv.good n b h).1, h⟩) ?_
+          (fun n b h => ⟨secNextBootPatch_good env cfg _ n b hst (hinv.good n b h).1, Or.inl h⟩) ?_
         · simp only [G11.next, hbs, hge]
           cases g.good with
           | none => simp
@@ -866,7 +902,7 @@ theorem step11_B (env : Env) (cfg : Config) (libs : List (String × Bytes)) (cha
         refine simple (secNextBootPatch env cfg cw.disk).1 _ g.failed g.good (by intro c r h; cases h)
           (step_disk_enter env _ .nextP cfg hw) hret ?_ (secNextBootPatch_settled env cfg _ hst)
           (fun ha => (secNextBootPatch_ban env cfg _ _ hst (hinv.ban ha)).1)
-          (fun n b h => ⟨secNextBootPatch_good env cfg _ n b hst (hinv.good n b h).1, h⟩) ?_
+          (fun n b h => ⟨secNextBootPatch_good env cfg _ n b hst (hinv.good n b h).1, Or.inl h⟩) ?_
         · simp only [G11.next, hbs, hge]
           cases g.good with
           | none => simp
@@ -880,14 +916,33 @@ theorem step11_B (env : Env) (cfg : Config) (libs : List (String × Bytes)) (cha
           have hd : (step env { disk := cw.disk, config := some cfg, libs := libs } .success).1.disk = cw.disk := by
             rw [step_disk_enter env _ .success cfg hw]; simp only [opDisk]; exact secLaunchSuccess_nobooting env cfg cw.disk hst hbt
           refine simple cw.disk _ g.failed g.good (by intro c r h; cases h) hd rfl ?_ hst hinv.ban
-            (fun n b h => ⟨(hinv.good n b h).1, h⟩) (by intro n h; rcases h with h | h <;> cases h)
+            (fun n b h => ⟨(hinv.good n b h).1, Or.inl h⟩) (by intro n h; rcases h with h | h <;> cases h)
           simp only [G11.next, hbs, hge, hpreb, hbt]
           cases g.good with
-          | none => simp
+          | none => simp [G11.established, hpreb, hbt]
           | some nb => simp
         | some bp =>
+          have hest : ∀ n b, g.established env cfg.key (viewOfDisk cw.disk) = some (n, b) →
+              GoodD env cfg.key (secLaunchSuccess env cfg cw.disk).1 n b ∧
+                (n ∉ episodeRolled sc bops0 ∧ (sc.resp.bind (·.patch)).map (·.number) ≠ some n) := by
+            intro n b h
+            simp only [G11.established, hpreb, hbt, Option.map_some] at h
+            cases hf : (viewOfDisk cw.disk).fileOf bp.number with
+            | none => simp [hf] at h
+            | some b0 =>
+              simp only [hf] at h
+              split at h
+              · rename_i hc
+                simp only [Option.some.injEq, Prod.mk.injEq] at h
+                obtain ⟨rfl, rfl⟩ := h
+                simp only [Bool.and_eq_true, Bool.not_eq_true', List.contains_eq_mem, decide_eq_false_iff_not] at hc
+                obtain ⟨ha, hall⟩ := slots_of_view env cfg.key (shows_viewOfDisk cw.disk none []) bp.number b0 hf hc.1
+                exact ⟨secLaunchSuccess_good_new env cfg cw.disk bp.number b0 hst bp hbt rfl ha hall, hinv.exempt _ hc.2⟩
+              · cases h
           refine simple (secLaunchSuccess env cfg cw.disk).1 _ g.failed
-            (match g.good with | some (n, b) => if bp.number = n then some (n, b) else none | none => none)
+            (match g.good with
+              | some (n, b) => if bp.number = n then some (n, b) else g.established env cfg.key (viewOfDisk cw.disk)
+              | none => g.established env cfg.key (viewOfDisk cw.disk))
             (by intro c r h; cases h) (step_disk_enter env _ .success cfg hw) rfl ?_
             (secLaunchSuccess_settled env cfg _ hst) (fun ha => secLaunchSuccess_ban env cfg _ _ hst (hinv.ban ha)) ?_
             (by intro n h; rcases h with h | h <;> cases h)
@@ -897,7 +952,7 @@ theorem step11_B (env : Env) (cfg : Config) (libs : List (String × Bytes)) (cha
             | some nb => simp
           · intro n b h
             cases hg : g.good with
-            | none => simp [hg] at h
+            | none => simp only [hg] at h; exact ⟨(hest n b h).1, Or.inr (hest n b h).2⟩
             | some nb =>
               obtain ⟨n0, b0⟩ := nb
               simp only [hg] at h
@@ -905,8 +960,8 @@ theorem step11_B (env : Env) (cfg : Config) (libs : List (String × Bytes)) (cha
               · rename_i hbn
                 simp only [Option.some.injEq, Prod.mk.injEq] at h
                 obtain ⟨rfl, rfl⟩ := h
-                exact ⟨secLaunchSuccess_good_same env cfg _ n0 b0 hst bp hbt hbn (hinv.good n0 b0 hg).1, rfl⟩
-              · cases h
+                exact ⟨secLaunchSuccess_good_same env cfg _ n0 b0 hst bp hbt hbn (hinv.good n0 b0 hg).1, Or.inl rfl⟩
+              · exact ⟨(hest n b h).1, Or.inr (hest n b h).2⟩
       | failure =>
         have hbanF := fun ha => secLaunchFailure_ban env cfg cw.disk g.failed hst (hinv.ban ha)
         cases hbt : (loadPatchesState cw.disk).booting with
@@ -914,7 +969,7 @@ theorem step11_B (env : Env) (cfg : Config) (libs : List (String × Bytes)) (cha
           refine simple (secLaunchFailure env cfg cw.disk) _ g.failed g.good (by intro c r h; cases h)
             (step_disk_enter env _ .failure cfg hw) rfl ?_ (secLaunchFailure_settled env cfg _ hst)
             (fun ha => by have := hbanF ha; rw [hbt] at this; exact this)
-            (fun n b h => ⟨secLaunchFailure_good env cfg _ n b hst (hinv.good n b h).1 (by rw [hbt]; simp), h⟩)
+            (fun n b h => ⟨secLaunchFailure_good env cfg _ n b hst (hinv.good n b h).1 (by rw [hbt]; simp), Or.inl h⟩)
             (by intro n h; rcases h with h | h <;> cases h)
           simp only [G11.next, hbs, hge, hpreb, hbt]
           cases g.good with
@@ -949,11 +1004,11 @@ theorem step11_B (env : Env) (cfg : Config) (libs : List (String × Bytes)) (cha
               · rename_i hbn
                 simp only [Option.some.injEq, Prod.mk.injEq] at h
                 obtain ⟨rfl, rfl⟩ := h
-                refine ⟨secLaunchFailure_good env cfg _ n0 b0 hst (hinv.good n0 b0 hg).1 ?_, rfl⟩
+                refine ⟨secLaunchFailure_good env cfg _ n0 b0 hst (hinv.good n0 b0 hg).1 ?_, Or.inl rfl⟩
                 rw [hbt]; simpa using hbn
   · -- inside a patch check
     have hbs : g.bStarts .B = none := by simp [G11.bStarts, hic]
-    have hnext : ∀ rets, g.next .B rets (viewOfDisk cw.disk) =
+    have hnext : ∀ rets, g.next env cfg.key .B rets (viewOfDisk cw.disk) =
         (if rets.isEmpty then { g with inCheck := true } else { g with inCheck := false, bops := cw.bq }) := by
       intro rets
       simp only [G11.next, hbs, hbo]
@@ -961,8 +1016,8 @@ theorem step11_B (env : Env) (cfg : Config) (libs : List (String × Bytes)) (cha
       | none => simp
       | some nb => simp
     have hgood' : ∀ (d' : Disk), (∀ n b, g.good = some (n, b) → GoodD env cfg.key d' n b) →
-        ∀ (gg : G11), gg.good = g.good → ∀ n b, gg.good = some (n, b) → GoodD env cfg.key d' n b ∧ g.good = some (n, b) :=
-      fun d' hd gg he n b h => ⟨hd n b (he ▸ h), he ▸ h⟩
+        ∀ (gg : G11), gg.good = g.good → ∀ n b, gg.good = some (n, b) → GoodD env cfg.key d' n b ∧ (g.good = some (n, b) ∨ (n ∉ episodeRolled sc bops0 ∧ (sc.resp.bind (·.patch)).map (·.number) ≠ some n)) :=
+      fun d' hd gg he n b h => ⟨hd n b (he ▸ h), Or.inl (he ▸ h)⟩
     have noq : ∀ (rets : List Ret) (d' : Disk) r n, (g.bStarts .B = some .nextN ∨ g.bStarts .B = some .nextP) → rets = [r] → retNumber r = some n →
         ∃ m, (loadPatchesState d').next = some m ∧ m.number = n ∧ validate env cfg.key d' m = true := by
       intro rets d' r n hs'; rw [hbs] at hs'; rcases hs' with h | h <;> cases h
@@ -1025,7 +1080,12 @@ theorem step11 (env : Env) (cfg : Config) (libs : List (String × Bytes)) (chan 
 theorem Inv11_start (env : Env) (cfg : Config) (sc : UpdateScript) (bops : List Op) (d0 : Disk)
     (hst : Settled d0 cfg.version) (hok : ∀ op ∈ bops, op.episodeOk = true) :
     Inv11 env cfg sc bops (G11.start env cfg.key sc bops (viewOfDisk d0)) { disk := d0, upc := .copyCfg, bq := bops } := by
-  refine ⟨hst, ?_, ?_, trivial, Or.inl ⟨rfl, rfl, rfl⟩, fun op h => ⟨h, hok op h⟩⟩
+  refine ⟨hst, ?_, ?_, trivial, Or.inl ⟨rfl, rfl, rfl⟩, fun op h => ⟨h, hok op h⟩, ?_⟩
+  rotate_right
+  · intro n hn
+    simp only [G11.start, List.mem_append, not_or] at hn
+    refine ⟨hn.1, ?_⟩
+    intro he; apply hn.2; rw [he]; simp
   · -- armed: no slot holds a banned number
     intro ha
     simp only [G11.start, Bool.and_eq_true, List.all_eq_true, Bool.not_eq_true', List.contains_eq_mem,
